@@ -511,7 +511,7 @@ pub fn run(fields: &[&str]) -> String {
             guarded(|| groups_enc(&frs, &wrap_first_fit(&frs, &lws)))
         }
         #[cfg(feature = "full")]
-        "of" | "ofx" => {
+        "of" | "ofx" | "ofu" => {
             let frs = dfrags(fields[1]);
             let lws = dnums(fields[2]);
             let p: Vec<usize> = fields[3].split(':').map(|x| x.parse().unwrap()).collect();
@@ -1227,6 +1227,30 @@ pub fn generate<W: Write>(mode: &str, r: &mut Rng, out: &mut W) {
                 _ => gen::structured_text(r, 4, 4, 0, true),
             };
             vec!["std".into(), enc::s(&t)]
+        }
+        "ofu" => {
+            // usize-valued widths and penalties over the whole usize range: optimal-fit must
+            // not report an overflow error (C04)
+            let big = |r: &mut Rng| -> u64 {
+                match r.below(5) {
+                    0 => u64::MAX,
+                    1 => r.next(),
+                    2 => 1u64 << r.below(64),
+                    _ => r.below(40) as u64,
+                }
+            };
+            let num = |r: &mut Rng| format!("x{:016x}", (big(r) as f64).to_bits());
+            let n = r.below(12);
+            let frs: Vec<String> = (0..n).map(|_| format!("{}:{}:{}", num(r), num(r), num(r))).collect();
+            let nl = r.range(1, 2);
+            let lws: Vec<String> = (0..nl).map(|_| num(r)).collect();
+            let pen = |r: &mut Rng| if r.chance(1, 3) { big(r) as usize } else { r.below(3000) };
+            vec![
+                "ofu".to_string(),
+                if frs.is_empty() { "~".into() } else { frs.join(",") },
+                lws.join(","),
+                format!("{}:{}:{}:{}:{}", pen(r), pen(r), pen(r), pen(r), pen(r)),
+            ]
         }
         "ffx" | "ofx" => {
             // arbitrary doubles, non-finite included: no-panic and shape only
